@@ -122,7 +122,40 @@ func c20Gen(rng *verifsim.RNG, idx int, tier string) *Plan {
 			p.Faults = append(p.Faults, Fault{Seam: "read", If: victim, From: int64(rng.Dur(0, horizon/2)) + 1, Err: []string{"EPERM", "opaque"}[rng.Intn(2)]})
 		}
 	}
-	if rng.Bool(0.85) {
+	if rng.Bool(0.15) {
+		// the supervisor's notification socket goes away at some point (or was
+		// never there): nobody but the supervisor may notice
+		from := int64(0)
+		if rng.Bool(0.6) {
+			from = int64(rng.Dur(0, horizon))
+		}
+		p.Faults = append(p.Faults, Fault{Seam: "notify", From: from, Count: -1, Err: []string{"ENOBUFS", "EPERM", "opaque"}[rng.Intn(3)]})
+		p.Class += "+notify-fails"
+	}
+	burstIf := ""
+	if !scripted && rng.Bool(0.2) {
+		for _, is := range n.Config.Interfaces {
+			if is.Advertise && burstIf == "" {
+				burstIf = is.names()[0]
+			}
+		}
+	}
+	if burstIf != "" {
+		// the signal finds an advertiser's listener waiting for room in its
+		// request queue (a burst of solicitations in the same instant)
+		p.Class += "+burst-at-signal"
+		biasQueueFull(rng, p)
+		b := Action{At: sigAt, Kind: "rs", If: burstIf, Src: []string{hostAddr(3), "::"}[rng.Intn(2)], N: rng.Range(17, 40)}
+		sa := Action{At: sigAt, Kind: "signal", Sig: sig}
+		if rng.Bool(0.5) {
+			b.Then = &sa
+			p.Actions = append(p.Actions, b)
+		} else {
+			sa.Then = &b
+			p.Actions = append(p.Actions, sa)
+		}
+		p.Horizon = sigAt + 5*nsSec
+	} else if rng.Bool(0.85) {
 		p.Actions = append(p.Actions, Action{At: sigAt, Kind: "signal", Sig: sig})
 		p.Horizon = sigAt + 5*nsSec
 	} else {
@@ -252,7 +285,7 @@ func c20Oracle(info *runInfo, res *verifsim.Result) {
 	// reason to stay (a task that never became ready must not hold it back)
 	notifyFault := false
 	for _, f := range info.plan.Faults {
-		if f.Seam == "notify" || f.Seam == "log" {
+		if (f.Seam == "notify" || f.Seam == "log") && (f.Hold != "" || f.Lat != 0) {
 			notifyFault = true
 		}
 	}
